@@ -95,6 +95,7 @@ static void narrow_printf(void) {
         d = mkdest(16); CASE(FN, bos ? "dmax-above-limit|bos" : "dmax-above-limit", RT_NEG, bos ? 0 : ESLEMAX, NULL, 0, 1, CALLF(d, RSIZE_MAX_STR + 1, B, "x")); \
         if (bos) { d = mkdest(16); CASE(FN, "dmax-above-object-size|bos", RT_NEG, EOVERFLOW, NULL, 0, 1, CALLF(d, 17, 16, "x")); } \
         d = mkdest(16); CASE(FN, bos ? "%s-argument-null|bos" : "%s-argument-null", RT_NEG, ESNULLP, d, 16, 1, CALLF(d, 16, B, "ab%s", nul)); \
+        d = mkdest(16); CASE(FN, bos ? "%ls-argument-null|bos" : "%ls-argument-null", RT_NEG, ESNULLP, d, 16, 1, CALLF(d, 16, B, "ab%ls", nul)); \
         d = mkdest(16); CASE(FN, bos ? "unsupported-conversion|bos" : "unsupported-conversion", RT_NEGANY, 0, d, 16, 1, CALLF(d, 16, B, "ab%y", 1)); \
         d = mkdest(16); CASE(FN, bos ? "text-does-not-fit|bos" : "text-does-not-fit", RT_NEG, ESNOSPC, d, 16, 1, CALLF(d, 16, B, "%s", "0123456789abcdefXYZ")); \
     } while (0)
@@ -109,6 +110,7 @@ static void narrow_printf(void) {
         d = mkdest(16); CASE(FN, bos ? "dmax-above-limit|bos" : "dmax-above-limit", RT_NEG, bos ? 0 : ESLEMAX, NULL, 0, 1, CALLF(d, RSIZE_MAX_STR + 1, B, "x")); \
         if (bos) { d = mkdest(16); CASE(FN, "dmax-above-object-size|bos", RT_NEG, EOVERFLOW, NULL, 0, 1, CALLF(d, 17, 16, "x")); } \
         d = mkdest(16); CASE(FN, bos ? "%s-argument-null|bos" : "%s-argument-null", RT_NEG, ESNULLP, d, 16, 1, CALLF(d, 16, B, "ab%s", nul)); \
+        d = mkdest(16); CASE(FN, bos ? "%ls-argument-null|bos" : "%ls-argument-null", RT_NEG, ESNULLP, d, 16, 1, CALLF(d, 16, B, "ab%ls", nul)); \
         d = mkdest(16); CASE(FN, bos ? "unsupported-conversion|bos" : "unsupported-conversion", RT_NEGANY, 0, d, 16, 1, CALLF(d, 16, B, "ab%y", 1)); \
     } while (0)
         NT("snprintf_s", _snprintf_s_chk); NT("vsnprintf_s", v_vsnprintf_s);
@@ -118,13 +120,16 @@ static void narrow_printf(void) {
         CASE("fprintf_s", "stream-null", RT_NEG, ESNULLP, NULL, 0, 1, fprintf_s(ns, "x"));
         CASE("fprintf_s", "fmt-null", RT_NEG, ESNULLP, NULL, 0, 1, fprintf_s(g_nstream, nf));
         CASE("fprintf_s", "%s-argument-null", RT_NEG, ESNULLP, NULL, 0, 1, fprintf_s(g_nstream, "ab%s", nul));
+        CASE("fprintf_s", "%ls-argument-null", RT_NEG, ESNULLP, NULL, 0, 1, fprintf_s(g_nstream, "ab%ls", nul));
         CASE("fprintf_s", "unsupported-conversion", RT_NEGANY, 0, NULL, 0, 1, fprintf_s(g_nstream, "ab%y", 1));
         CASE("vfprintf_s", "stream-null", RT_NEG, ESNULLP, NULL, 0, 1, v_vfprintf_s(ns, "x"));
         CASE("vfprintf_s", "fmt-null", RT_NEG, ESNULLP, NULL, 0, 1, v_vfprintf_s(g_nstream, nf));
         CASE("vfprintf_s", "%s-argument-null", RT_NEG, ESNULLP, NULL, 0, 1, v_vfprintf_s(g_nstream, "ab%s", nul));
+        CASE("vfprintf_s", "%ls-argument-null", RT_NEG, ESNULLP, NULL, 0, 1, v_vfprintf_s(g_nstream, "ab%ls", nul));
         CASE("vfprintf_s", "unsupported-conversion", RT_NEGANY, 0, NULL, 0, 1, v_vfprintf_s(g_nstream, "ab%y", 1));
         CASE("printf_s", "fmt-null", RT_NEG, ESNULLP, NULL, 0, 1, printf_s(nf));
         CASE("printf_s", "%s-argument-null", RT_NEG, ESNULLP, NULL, 0, 1, printf_s("ab%s", nul));
+        CASE("printf_s", "%ls-argument-null", RT_NEG, ESNULLP, NULL, 0, 1, printf_s("ab%ls", nul));
         CASE("printf_s", "unsupported-conversion", RT_NEGANY, 0, NULL, 0, 1, printf_s("ab%y", 1));
         CASE("vprintf_s", "fmt-null", RT_NEG, ESNULLP, NULL, 0, 1, v_vprintf_s(nf));
         CASE("vprintf_s", "%s-argument-null", RT_NEG, ESNULLP, NULL, 0, 1, v_vprintf_s("ab%s", nul));
